@@ -197,6 +197,78 @@ def replay_pair_table(target, nr, npots, derivs, labels, w, route="class", h=Non
   return last
 
 
+class IntCore(object):
+  """a potential written by a user as `if r < thr: return 0` (a python int, not a float) and a float elsewhere"""
+
+  def __init__(self, u, du, thr):
+    self.u, self.du, self.thr = u, du, thr
+
+  def __call__(self, r):
+    if r < self.thr:
+      return 0
+    return self.u(r)
+
+  def deriv(self, r):
+    if r < self.thr:
+      return 0
+    return self.du(r)
+
+
+def replay_pair_intcore(target, nr, npots, derivs, labels, w, route):
+  """concrete: potential 0 returns the int 0 below the witness threshold"""
+  import atsim.potentials as ap
+  from atsim.potentials import Potential
+  from atsim.potentials import pair_tabulation as pt
+  cls = dict(LAMMPS=pt.LAMMPS_PairTabulation, DL_POLY=pt.DLPoly_PairTabulation, GULP=pt.GULP_PairTabulation)[target]
+  cutoff = _cutoff_from(w)
+  try:
+    thr = float(w.get("thr"))
+  except Exception:  # noqa
+    thr = 1.5 * cutoff / max(nr - 4, 1)
+  gen = gen_functions(npots)
+  mf = w.get("#functions", {}) if isinstance(w, dict) else {}
+  last = None
+  for what in ("model functions", "generic functions"):
+    fs = []
+    for p in range(npots):
+      f, d = gen[p]
+      if what == "model functions":
+        if ("U%d" % p) not in mf:
+          fs = None
+          break
+        f = mf["U%d" % p]
+        d = mf.get("d_U%d" % p) or _stencil(f, 1e-6)
+      fs.append((f, d))
+    if fs is None:
+      continue
+    pots, spec = [], []
+    for p in range(npots):
+      f, d = fs[p]
+      a, b = labels[p]
+      if p == 0:
+        pots.append(Potential(a, b, IntCore(f, d, thr)))
+        spec.append((a, b, (lambda r, f=f: 0.0 if r < thr else f(r)), (lambda r, d=d: 0.0 if r < thr else d(r))))
+      else:
+        pots.append(Potential(a, b, _WithDeriv(f, d) if derivs[p] else f))
+        spec.append((a, b, f, d if derivs[p] else _stencil(f, 1e-6)))
+    out = io.StringIO()
+    try:
+      if route == "class":
+        cls(pots, cutoff, nr).write(out)
+      else:
+        ap.writePotentials(target, pots, cutoff, nr, out)
+      cmp = dict(LAMMPS=compare_lammps, DL_POLY=compare_dlpoly, GULP=compare_gulp)[target]
+      bad = cmp(out.getvalue(), spec, cutoff, nr)
+    except Exception as e:  # noqa
+      bad = ["writer raised %s: %s" % (type(e).__name__, e)]
+    rec = dict(kind="pair_api_intcore", target=target, nr=nr, npots=npots, derivs=list(derivs), labels=labels, cutoff=cutoff, thr=thr, route=route,
+               functions=what, mismatches=bad[:10])
+    last = (bool(bad), ("[%s; potential 0 returns the int 0 for r < %r] " % (what, thr)) + ("; ".join(bad[:4]) or "output agrees with the specification at cutoff=%r" % cutoff), rec)
+    if bad:
+      return last
+  return last
+
+
 def compare_gulp(text, pots_spec, cutoff, nr, tol=2e-10):
   bad = []
   try:
